@@ -48,6 +48,15 @@ SPECS = [
          ],
          raises={'*': {'ensures': ["ext_raised(0)"]}},
          serves=['C09', 'C05'], no_fresh=True),
+    dict(id='S-MacroUseInternal-after-expr',
+         text='A<i tal:content="e1"/><m metal:define-macro="m">%s</m>B' % H1,
+         ensures=[
+             "ext_count() == 1", "ext_callee(0) is module_function('render_m')",
+             # an expression evaluated earlier must not be blamed for a failure inside the macro
+             "ext_token(0) is None",
+         ],
+         raises={'*': {'ensures': ["raised('e1') or (ext_count() == 1 and ext_raised(0) and ext_token(0) is None)"]}},
+         serves=['C12', 'C09'], no_fresh=True),
     dict(id='S-MacroBody', fname='render_m',
          text='A<m metal:define-macro="m">%s<d metal:define-slot="s">%s</d></m>B' % (H1, H2),
          ensures=[
